@@ -1,9 +1,9 @@
 #!/bin/bash
 # usage: tools/try_batch.sh <ID> [check-ID] [tier]  -> runs the check against every /tmp/seeded/<ID>/m*/patch.diff; output in /tmp/seeded/<ID>/try.txt
 ID="$1"; CK="${2:-$1}"; TIER="${3:-quick}"
-OUT=/tmp/seeded/$ID/try-$CK.txt
+OUT=${SEEDED_BASE:-/tmp/seeded}/$ID/try-$CK.txt
 : > "$OUT"
-for d in /tmp/seeded/$ID/m*/; do
+for d in ${SEEDED_BASE:-/tmp/seeded}/$ID/m*/; do
   echo "== $(basename $d)" >> "$OUT"
   /verif/tools/try_seeded.sh "$d/patch.diff" "$CK" "$TIER" >> "$OUT" 2>&1
 done
